@@ -497,7 +497,7 @@ func runGraph(sc *gScen) *gRun {
 						check(fv)
 					}
 				}
-				if prefilled[i] {
+				if prefilled[i] && prefillable[sn] {
 					fv := bv.FieldByName(sn)
 					if fv.Kind() == reflect.Slice && fv.Len() == 0 || (fv.Kind() == reflect.Pointer || fv.Kind() == reflect.Interface) && fv.IsNil() {
 						res.wiped = append(res.wiped, fmt.Sprintf("%d.%s", i, sn)) // held a dummy before the start, holds nothing now
@@ -644,6 +644,10 @@ func kindOf(t reflect.Type, tyOf func(reflect.Type) int) (string, string) {
 }
 
 // prefillSlots puts an unregistered dummy of a fitting type into every specified slot of a holder before the start
+// the slots prefillSlots knows how to fill (the others stay zero before the start)
+var prefillable = map[string]bool{"P0": true, "P1": true, "P4": true, "X0": true, "X0b": true, "X1": true, "S0": true, "S1": true,
+	"SP0": true, "A0": true, "A1": true, "AS0": true}
+
 func prefillSlots(b *Base, slots map[string]string, env *runEnv) {
 	mk := func() *T1 { d := &T1{}; d.Idx = -1; env.dummies[any(d)] = true; return d }
 	for slot := range slots {
